@@ -111,7 +111,7 @@ def findAlias (env : AEnv) (s : VSt) (typeName : String) : Except PyErr (String 
       | none => .ok (name, qname)
       | some [q] => .ok (lastD "" (splitDot q), q)
       | some qs =>
-        -- several definitions of that name: the one whose path contains the current module's name
+        -- several definitions of that name: the first one, in sorted order, whose path contains the current module's name
         let step := fun (acc : String Ã— String Ã— Bool) (aq : String) =>
           if acc.2.2 then acc
           else
@@ -119,7 +119,7 @@ def findAlias (env : AEnv) (s : VSt) (typeName : String) : Except PyErr (String 
             let typePath := joinWith "." (dropLast' parts)
             let nm := lastD "" parts
             if pyIn s.fileFullname typePath then (nm, aq, true) else (nm, acc.2.1, false)
-        let r := qs.foldl step (name, qname, false)
+        let r := (sortStrings qs).foldl step (name, qname, false)        -- `for alias_qname in sorted(qnames)`
         .ok (r.1, r.2.1)
 
 /-- `_inherits_from_exception` (fuel: the TypeInfo graph is finite and acyclic) -/
@@ -165,13 +165,17 @@ def addReexports (api : AnaResult) (m : Module) : AnaResult :=
   { api with reexportMap := rm }
 
 inductive ParentKind where
-  | module | publicClass | privateClass | initFunction | other
+  | module | publicClass | privateClass
+  /-- a constructor; `owner` = publicity of the class above it on the stack, if there is a class -/
+  | initFunction (owner : Option Bool)
+  | other
 
 def parentKind (s : VSt) : ParentKind :=
   match s.stack with
   | .module _ :: _ => .module
   | .cls c :: _ => if c.isPublic then .publicClass else .privateClass
-  | .fn f :: _ => if f.name == "__init__" then .initFunction else .other
+  | .fn f :: rest =>
+    if f.name == "__init__" then .initFunction (match rest with | .cls c :: _ => some c.isPublic | _ => none) else .other
   | _ => .other
 
 /-- `_check_publicity_in_reexports`; `parentOk` = `isinstance(parent, Module) or parent.is_public` -/
@@ -207,7 +211,7 @@ def isPublicV (s : VSt) (name qname : String) : Except PyErr Bool :=
   | .other => .error .typeError
   | pk =>
     let viaReexport := match pk with
-      | .initFunction => none
+      | .initFunction _ => none
       | .module => checkPublicityInReexports s name qname true
       | .publicClass => checkPublicityInReexports s name qname true
       | _ => checkPublicityInReexports s name qname false
@@ -216,12 +220,16 @@ def isPublicV (s : VSt) (name qname : String) : Except PyErr Bool :=
     | none =>
       if isInternal name && !pyEndsWith name "__" then .ok false
       else
-        match pk with
-        | .publicClass => if name == "__init__" || !isInternal name then .ok true
-                          else .ok ((dropLast' (splitDot qname)).all (fun it => !isInternal it))
-        | .privateClass => if name == "__init__" || !isInternal name then .ok false
-                           else .ok ((dropLast' (splitDot qname)).all (fun it => !isInternal it))
-        | _ => .ok ((dropLast' (splitDot qname)).all (fun it => !isInternal it))
+        -- attributes assigned in a constructor belong to the class of that constructor
+        let ownerPublic : Option Bool := match pk with
+          | .publicClass => some true
+          | .privateClass => some false
+          | .initFunction o => o
+          | _ => none
+        match ownerPublic with
+        | some b => if name == "__init__" || !isInternal name then .ok b
+                    else .ok ((dropLast' (splitDot qname)).all (fun it => !isInternal it))
+        | none => .ok ((dropLast' (splitDot qname)).all (fun it => !isInternal it))
 
 /-! ### docstring parser access -/
 
@@ -703,7 +711,7 @@ def reconcileResults (env : AEnv) (functionId : String) : Nat â†’ List Result â†
     | some dt =>
       match cur with
       | none =>
-        let name := if d.name != "" then d.name else "result_" ++ toString i
+        let name := if d.name != "" then d.name else "result_" ++ toString (i + 1)
         reconcileResults env functionId (i + 1) (all ++ [{ id := functionId ++ "/" ++ name, name := name, type := some dt }]) rest ds
       | some r => do
         if env.opts.warn && resultDiffers r dt then
@@ -809,7 +817,7 @@ def createAttributeV (env : AEnv) (isMember : Bool) (name fullname : String) (is
     | _ => throwV .assertionError : V String)
   let doc â† attributeDocumentation env parentId name
   let s â† get
-  let id := pyReplace (createId s name) "__init__/" ""
+  let id := parentId ++ "/" ++ name
   let pub â† (match isPublicV s name qname with
     | .ok b => pure b
     | .error e => throwV e : V Bool)
@@ -822,9 +830,12 @@ def parseAttributes (env : AEnv) (lv : LValue) (un : Option MType) (isStatic : B
     match attributeAlreadyDefined s name with
     | .error e => throwV e
     | .ok true => pure []
-    | .ok false => do
-      let a â† createAttributeV env isMember name fullname isVar var un isStatic
-      pure [a] : V (List Attribute))
+    | .ok false =>
+      -- `self.x = â€¦` for an `x` defined elsewhere (e.g. inherited): mypy attaches no node to the target
+      if isMember && !isVar then pure []
+      else do
+        let a â† createAttributeV env isMember name fullname isVar var un isStatic
+        pure [a] : V (List Attribute))
   match lv with
   | .name n fq isVar var => one false n fq isVar var
   | .member n fq isVar var => one true n fq isVar var
